@@ -60,6 +60,13 @@ def boot():
     if got != want:
         raise RuntimeError(f"funtracks imported from {got}, expected {want}")
     warnings.simplefilter("ignore")
+    # everything imported so far is permanent: keep it out of later collections
+    import funtracks.import_export  # noqa: F401
+    import funtracks.user_actions  # noqa: F401
+    import gc
+
+    gc.collect()
+    gc.freeze()
 
 
 def splitmix64(*vals: int) -> int:
